@@ -64,7 +64,7 @@ def _handler(name, num_probes):
 
 
 class EnumPatch:
-    """rademacher(key, shape=(s, n, d)) -> all 2^(n*d) sign patterns (s must equal 2^(n*d))."""
+    """rademacher(key, shape=(s, *probe)) -> all sign patterns of one probe, repeated s / 2^m times (m = entries of a probe)."""
 
     def __init__(self):
         self.keys = []
@@ -78,10 +78,15 @@ class EnumPatch:
 
         def rademacher(key, /, shape, dtype):
             self.keys.append(tuple(np.asarray(jax.random.key_data(key) if jnp.issubdtype(key.dtype, jax.dtypes.prng_key) else key).reshape(-1).tolist()))
-            s, n, d = shape
-            if s != 2 ** (n * d):
-                raise RuntimeError(f"harness: num_probes {s} != 2^{n * d}")
-            pats = np.asarray(list(itertools.product([-1.0, 1.0], repeat=n * d))).reshape(s, n, d)
+            # whatever layout the library asks for: shape = (number of probes, *probe shape). All 2^m sign patterns of the m probe
+            # entries are returned, repeated when the number of probes is a multiple of 2^m, so that the average over the probes is
+            # the exact expectation under the law the library draws from. Any other count cannot be enumerated -> inconclusive.
+            s, rest = int(shape[0]), tuple(int(k) for k in shape[1:])
+            m = int(np.prod(rest)) if rest else 0
+            if m > 20 or s % (2**m) != 0:
+                raise common.Inconclusive(f"probe layout {tuple(shape)} cannot be enumerated with {s} probes")
+            pats = np.asarray(list(itertools.product([-1.0, 1.0], repeat=m))).reshape((2**m,) + rest)
+            pats = np.tile(pats, (s // (2**m),) + (1,) * len(rest))
             return jnp.asarray(pats, dtype=dtype)
 
         R.rademacher = rademacher
